@@ -110,9 +110,14 @@ def coreReduces (G : Grammar) (row : List Act) : List Nat :=
   let ps := (ntDepth G row []).map (·.2)
   (List.range G.nprods).filter (fun p => ps.contains p)
 
+def notShiftAccept : Act → Bool
+  | .shift _ => false
+  | .accept => false
+  | _ => true
+
 /-- `reduce_only_state` -/
 def reduceOnly (G : Grammar) (row : List Act) : Bool :=
-  row.all (fun a => match a with | .shift _ => false | .accept => false | _ => true) &&
+  row.all notShiftAccept &&
   (ntDepth G row []).length == 1
 
 end GrmVerif.Table
